@@ -249,8 +249,9 @@ static void mode_offsets(vf::Ctx& c)
 		if (!(fabs(p2.time() - (want + frac)) < 0.0005)) { c.desc("Date('" + f2 + "')"); c.fail("fraction.offset", vf::fmt("parsed %.6f want %.6f", p2.time(), want + frac)); }
 		c.evals(2);
 	}
-	c.distinct((uint64_t)(off + 5000));
-	if (c.want_sample()) c.sample(vf::fmt("offset %c%02d:%02d in the forms +hh:mm, +hhmm, +hh on extended and basic ISO strings, 4 instants, fractions of 1-9 digits", sign < 0 ? '-' : '+', oh, om));
+	c.count((std::string("offsets.cases-with-process-zone-") + (getenv("TZ") ? getenv("TZ") : "unset")).c_str());
+	c.distinct(vf::mix((uint64_t)(off + 5000), vf::fnv(getenv("TZ") ? getenv("TZ") : "")));
+	if (c.want_sample()) c.sample(vf::fmt("process zone %s: ", getenv("TZ") ? getenv("TZ") : "unset") + vf::fmt("offset %c%02d:%02d in the forms +hh:mm, +hhmm, +hh on extended and basic ISO strings, 4 instants, fractions of 1-9 digits", sign < 0 ? '-' : '+', oh, om));
 }
 
 // arbitrary strings: terminate, in bounds (ASan; string flush against its heap block when len >= 19)
@@ -361,6 +362,9 @@ int main(int argc, char** argv)
 	R.add("parse_mt", mode_parse_mt, "threads formatting/parsing valid dates and HTTP-shaped junk at once");
 	R.setup = [](const vf::Options& o) {
 		if (o.param("dump", 0)) recf = fopen((o.out + "/records.txt").c_str(), "w");
+		// zoned strings (Z or a numeric offset) denote one instant whatever the process's own zone is: mode offsets also runs under other zones
+		std::string tz = o.sparam("tz", "UTC");
+		if (tz != "UTC") { setenv("TZ", tz.c_str(), 1); tzset(); }
 	};
 	int rc = R.main(argc, argv);
 	return rc;
